@@ -50,16 +50,18 @@ Hypothesis Hlib : lib_contract lib.
 Definition plain_sentence (name : string) (ent : list byte) : list byte := encode_with sha256 [x20] (canon name) ent.
 
 Theorem accepted_iff_encoding name l s : supported name l ->
-  (CheckMnemonicL lib s l = Ret None <-> exists ent, valid_ent (length ent) /\ nfkd s = plain_sentence name ent).
+  (CheckMnemonicL lib s l = Ret None <->
+   utf8_valid s = true /\ exists ent, valid_ent (length ent) /\ nfkd s = plain_sentence name ent).
 Proof.
   intros Hs. pose proof (canon_ok name l Hs) as Hok. split.
   - intros H. rewrite (CheckMnemonicL_canon lib s name l Hs) in H.
+    split; [exact (accepted_valid (canon name) Hok lib Hlib s H)|].
     destruct (accepted_tokens (canon name) Hok lib s H) as [idx [Ht [Hwc [Hb Hcs]]]].
     destruct (valid_indices_are_encodings idx Hwc Hb Hcs) as [Hv Hi]. cbn zeta in Hv, Hi.
     exists (entropy_of_indices idx). split; [exact Hv|].
     unfold plain_sentence, encode_with. rewrite Hi, <- Ht.
-    rewrite <- (LC1 _ Hlib s (accepted_xsafe (canon name) Hok lib Hlib s H)). symmetry. apply join_split.
-  - intros [ent [Hv E]]. destruct (valid_ent_k _ Hv) as [k [Hlen Hk]]. destruct (indices_bits ent k Hlen Hk) as [_ [Hb _]].
-    apply (valid_spelling_accepted lib Hlib name l (bip39_indices sha256 ent) s Hs); [apply valid_ent_wc; exact Hv|exact Hb|apply (indices_entropy ent Hv)|exact E].
+    rewrite <- (LC1 _ Hlib s (accepted_valid (canon name) Hok lib Hlib s H) (accepted_xsafe (canon name) Hok lib Hlib s H)). symmetry. apply join_split.
+  - intros [V [ent [Hv E]]]. destruct (valid_ent_k _ Hv) as [k [Hlen Hk]]. destruct (indices_bits ent k Hlen Hk) as [_ [Hb _]].
+    apply (valid_spelling_accepted lib Hlib name l (bip39_indices sha256 ent) s Hs V); [apply valid_ent_wc; exact Hv|exact Hb|apply (indices_entropy ent Hv)|exact E].
 Qed.
 End Lib.
